@@ -404,7 +404,8 @@ def main(argv):
                           [d["line"] for d in disagreements[:20]],
                           {"broken": "correspondence ZkModel.L1 <-> implementation", "count": len(disagreements),
                            "records": [records[d["id"]] for d in disagreements[:20] if d["id"] in records]})
-        found = any(v[0] == "oracle" for v in violations)
+        # C10 IS "implementation = reference": a disagreeing operation is itself the failing input
+        found = any(v[0] == "oracle" for v in violations) or prop == "C10"
         violations.append(("correspondence", "model/implementation disagreement on %d operations" % len(disagreements), rp, found))
     if proof_problems:
         rp = write_replay(prop, "proof", "; ".join(proof_problems)[:2000], [], {"broken": [p[:300] for p in proof_problems], "module": reg["module"]})
